@@ -22,6 +22,7 @@ EXPLANATION = (
     "themselves are not explored (that is model checking, a different family)."
     ' Also evaluated here: solving-context scope (C16 R16.5): every solver job of a test goes through the executor that shutdown reaches.'
     " Round 4: the executor's job registry only grows (no job is dropped from it before shutdown has seen it)."
+    " Round 5: cancel() gives up early only when there is no running process; Popen sits inside the worker's try/except Exception/finally set_result."
 )
 ASSUMPTIONS = [
     "threading.Lock / Event semantics; CPython's concurrent.futures.Future implementation (parsed from the running interpreter's stdlib)",
